@@ -929,7 +929,7 @@ class Curve(SplineGeometry):
 
     def reverse(self):
         """ Reverses the curve """
-        self._control_points = list(reversed(self._control_points))
+        self.set_ctrlpts(list(reversed(self._control_points)))  # also resets the cached views
         max_k = self.knotvector[-1]
         new_kv = [max_k - k for k in self.knotvector]
         self._knot_vector[0] = list(reversed(new_kv))
